@@ -2,6 +2,8 @@
 (vt/ref/runspec.py). Inputs: the TraceMonitor's trace (update returns and saves as
 observed at the hooks), the HDF5 output file opened with h5py (the user-visible
 boundary) and, optionally, the loaded tdgl.Solution."""
+import os
+
 import numpy as np
 
 from . import simmon
@@ -239,4 +241,31 @@ def check(tm, options, path, solution=None, complete=True, n_probes=0, screening
                 if gm.shape != wm.shape or not np.array_equal(gm, wm):
                     if not (gm.shape[-1] == N + 1):
                         viol("dynamics_mu_wrong", "dynamics_wrong", {"shape_got": list(gm.shape), "shape_want": list(wm.shape)})
+        # loading another frame changes which state is shown, not the run's clock or its per-step records
+        if got_t is not None and dyn is not None and len(want_steps) > 1 and solution.path and os.path.exists(solution.path):
+            import tdgl
+
+            last = int(solution.solve_step)
+            picks = sorted({0, len(want_steps) // 2, len(want_steps) - 2})
+            for j in picks:
+                cnt("frame_selection_checks")
+                for how in ("attribute", "from_hdf5"):
+                    try:
+                        if how == "attribute":
+                            solution.solve_step = j
+                            sj = solution
+                        else:
+                            sj = tdgl.Solution.from_hdf5(solution.path, solve_step=j)
+                        tj = [float(x) for x in np.asarray(sj.times)]
+                        dj = [float(x) for x in np.asarray(sj.dynamics.dt)]
+                        st = int(sj.tdgl_data.state["step"])
+                    except Exception as exc:
+                        viol("frame_selection_raised", "frame_selection_raised", {"frame": j, "how": how, "error": repr(exc)[:200]})
+                        continue
+                    if tj != got_t or dj != gdt:
+                        viol("records_depend_on_loaded_frame", "records_depend_on_loaded_frame",
+                             {"frame": j, "how": how, "times": [len(tj), len(got_t)], "dt_records": [len(dj), len(gdt)]})
+                    if st != want_steps[j]:
+                        viol("loaded_frame_is_another_step", "loaded_frame_is_another_step", {"frame": j, "how": how, "step": st, "want": want_steps[j]})
+            solution.solve_step = last
     return V, C
